@@ -10,6 +10,7 @@ import (
 	"os"
 	"path/filepath"
 	"regexp"
+	"runtime"
 	"sort"
 	"sync"
 	"time"
@@ -390,6 +391,56 @@ func driveRexp(args []string) error {
 			total++
 			if len(samples) < 4 && total%997 == 0 {
 				samples = append(samples, enc.M{"pattern": pats[x.pid], "string": x.s, "via": x.via, "goroutines": ng, "out": x.out, "fact": fact})
+			}
+		}
+	}
+	// hammer: many goroutines alternate between a few valid patterns through Pattern in a tight loop (any shortcut that
+	// remembers "the last pattern" or pairs a text with an expression non-atomically shows here); every answer is compared
+	// with the requested expression on the spot, and the disagreements (with a sample of agreements) become trace events
+	{
+		hp := []string{"^a", "b$", "^ab$", "x{2,}", "(?i)^a"}
+		hs := []string{"a", "ab", "b", "xx", "A", "ba"}
+		type obs struct {
+			pid, sid, g int
+			out         string
+		}
+		var mu sync.Mutex
+		var bad, good []obs
+		var wg sync.WaitGroup
+		deadline := time.Now().Add(1500 * time.Millisecond)
+		hg := 2 * runtime.GOMAXPROCS(0)
+		for g := 0; g < hg; g++ {
+			wg.Add(1)
+			go func(g int) {
+				defer wg.Done()
+				gr := rand.New(rand.NewSource(*seed*1000 + int64(g)))
+				var lb, lg []obs
+				for it := 0; time.Now().Before(deadline); it++ {
+					pid, sid := gr.Intn(len(hp)), gr.Intn(len(hs))
+					res := viaPattern(hp[pid], hs[sid])
+					if !outcomeAgrees(res, rexpFact(hp[pid], hs[sid])) {
+						if len(lb) < 5 {
+							lb = append(lb, obs{pid, sid, g, res})
+						}
+					} else if it%5000 == 0 && len(lg) < 3 {
+						lg = append(lg, obs{pid, sid, g, res})
+					}
+				}
+				mu.Lock()
+				bad, good = append(bad, lb...), append(good, lg...)
+				mu.Unlock()
+			}(g)
+		}
+		wg.Wait()
+		w.open()
+		w.write(enc.M{"ev": "reset"}, enc.M{})
+		all := append(bad, good...)
+		for i, x := range all {
+			fact := rexpFact(hp[x.pid], hs[x.sid])
+			ctx := &enc.Ctx{}
+			ev := enc.M{"ev": "pattern", "g": x.g, "q": i + 1, "pid": 100 + x.pid, "via": "Pattern", "str": ctx.Str(hs[x.sid])["x"], "out": x.out, "fact": fact, "facts": []interface{}{fact}, "ng": hg}
+			if err := w.write(ev, enc.M{"pattern": hp[x.pid], "patterns": []interface{}{hp[x.pid]}, "string": hs[x.sid], "via": "Pattern (hammer)", "goroutines": hg}); err != nil {
+				return err
 			}
 		}
 	}
